@@ -245,6 +245,8 @@ class Policy:
         self.change_points = set(spec.get("change_points", ()))
         self.prio = {}
         self.since = 0
+        self.park_len = spec.get("len", 1000)
+        self.parked = {}
 
     def want_switch(self, sim, t, code):
         k = self.kind
@@ -259,6 +261,14 @@ class Policy:
         if k == "targeted":
             p = self.p_in if code.co_name in self.targets else self.p_out
             return self.rng.random() < p
+        if k == "park":
+            # targeted, and the pre-empted thread stays off the processor for a while (a descheduled / slow thread):
+            # the others get through whole operations while it sits in the middle of one
+            p = self.p_in if code.co_name in self.targets else self.p_out
+            if self.rng.random() < p:
+                self.parked[t.idx] = sim.total_steps + self.park_len
+                return True
+            return False
         if k == "pct":
             if sim.total_steps in self.change_points:
                 # lower the running thread below everybody else
@@ -276,6 +286,9 @@ class Policy:
                 if c.idx not in self.prio:
                     self.prio[c.idx] = self.rng.random()
             return max(candidates, key=lambda c: self.prio[c.idx])
+        if self.kind == "park":
+            awake = [c for c in candidates if self.parked.get(c.idx, 0) <= sim.total_steps]
+            candidates = awake or candidates
         return candidates[self.rng.randrange(len(candidates))] if len(candidates) > 1 else candidates[0]
 
 
